@@ -171,7 +171,9 @@ def doEvent (d : DSt) (t : Nat) (kind : Char) (obj : Char) (detail : Int) (alt :
   match s.thr[t]? with
   | none => ({ d with dead := some "unknown thread" }, s!"reject:event of unknown thread {t}")
   | some th =>
-    let fail (why : String) : DSt × String := ({ d with dead := some why }, s!"reject:T{t} {kind}: {why}")
+    let fail (why : String) : DSt × String :=
+      let flat := (why.replace "\n" " ")
+      ({ d with dead := some flat }, s!"reject:T{t} {kind}: {flat}")
     match kind with
     | 'X' => if isFinished th then (d, "ok") else fail s!"thread exit at {pcName th}"
     | 'O' => if isAsleep th then ({ d with st := step d.cfg s (.timeout t) }, "ok") else fail "time-out of a thread that is not asleep"
